@@ -25,6 +25,9 @@ OVERRIDES = {
     "C04-7B": (["--no-default-features", "--features", "x25519"], False), "C05-7B": (["--no-default-features", "--features", "std,x25519"], True),
     "C13-7B": (["--features", "p384"], None), "C16-7B": (["--no-default-features", "--features", "x25519"], None),
     "C18-7B": (["--features", "std"], None), "C17-7A": ([], False),
+    "C01-8B": (["--features", "p521"], None), "C02-8A": (["--release"], None), "C08-8B": (["--features", "std"], None),
+    "C14-8A": (["--release"], None), "C15-8B": (["--release"], None), "C16-8A": (["--features", "std"], None),
+    "C17-8A": (["--features", "std"], None), "C17-8B": (["--no-default-features", "--features", "x25519"], None),
 }
 
 
